@@ -187,9 +187,11 @@ impl ContextualLookupBuilder<SubstitutionLookup> {
         let (lookup, id) = self.find_or_create_anon_lookup(
             |existing| match existing {
                 SubstitutionLookup::Single(subtables) => subtables.subtables.iter().all(|subt| {
+                    // check the pairs that will be inserted below: a single
+                    // replacement glyph applies to every glyph of a target class
                     target
                         .iter()
-                        .zip(replacement.iter())
+                        .zip(replacement.clone().into_iter_for_target())
                         .all(|(a, b)| subt.can_add(a, b))
                 }),
                 _ => false,
